@@ -166,6 +166,10 @@ def _arena_pipeline(tier, focus, variants, key):
     mc = tlc("MC_Arena", "MC_Arena_thorough.cfg" if thorough else "MC_Arena.cfg", workers=10,
              timeout=3000 if thorough else 900, xmx="12g")
     require_ok(mc, "MC_Arena")
+    # focused configuration: exclusive-borrow collections whose growth fails while several chunks exist (7 steps deep;
+    # this is the configuration on which TLC found the defect fixed by /repo 5e73d20)
+    mc2 = tlc("MC_Arena", "MC_Arena_prepfail.cfg", workers=6, timeout=900, xmx="6g")
+    require_ok(mc2, "MC_Arena_prepfail")
     # 2. behaviours
     beh = os.path.join(wd, "beh.ndjson")
     nnum = (5000 if thorough else 500) if focus != "c17" else (1200 if thorough else 150)
@@ -183,6 +187,8 @@ def _arena_pipeline(tier, focus, variants, key):
     counters = {k: tagged_int(results, k) for k in ("N_EXIT", "N_REALLOC", "N_NEWCHUNK", "N_RECLAIM", "N_FAIL", "N_CLAIMED_OP", "N_ALIGNED", "N_REUSE", "N_PREP", "N_COMMIT", "N_PARTS", "N_AGAIN", "N_TRYWITH_ERR", "N_VALUE")}
     shutil.rmtree(d, ignore_errors=True)
     mc.out = mc.out[-4000:]
+    mc.distinct += mc2.distinct
+    mc.generated += mc2.generated
     return {"wd": wd, "beh": beh, "obs": obs, "mc": mc, "nsim": nsim, "stats": stats, "crashes": crashes, "bad": bad,
             "drift": drift, "checked": checked, "counters": counters, "wall": time.time() - t0, "variants": variants}
 
